@@ -50,7 +50,7 @@ impl Emitter {
       0x8b, 0x4f, 0x0c, // mov ecx, [rdi + 12]
       0x66, 0x44, 0x8b, 0x67, 0x10, // mov r12w, [rdi + 16]
       0x66, 0x44, 0x8b, 0x6f, 0x14, // mov r13w, [rdi + 20]
-      0x66, 0x44, 0x8b, 0x7f, 0x18, // mov r15w, [rdi + 24]
+      0x44, 0x8b, 0x7f, 0x18, // mov r15d, [rdi + 24]
       // jump to the actual code, address stored in rsi
       0xff, 0xe6, // jmp rsi
     ];
@@ -69,7 +69,7 @@ impl Emitter {
       0x89, 0x4f, 0x0c, // mov [rdi + 12], ecx
       0x66, 0x44, 0x89, 0x67, 0x10, // mov [rdi + 16], r12w
       0x66, 0x44, 0x89, 0x6f, 0x14, // mov [rdi + 20], r13w
-      0x66, 0x44, 0x89, 0x7f, 0x18, // mov [rdi + 24], r15w
+      0x44, 0x89, 0x7f, 0x18, // mov [rdi + 24], r15d
       // Set return value from r14
       0x4c, 0x89, 0xf0, // mov rax, r14
       // Restore scratch registers to their original value
